@@ -3,8 +3,19 @@ CONSTANTS
   NFiles = 2
   NCuts = 7
   MaxOps = 62
+  NOwn = 3
+  Units = 0
+  MaxFree = 6
+  MaxMeta = 2
+  RootSlots = 4
+  LeafCap = 84
+  AddrPB = 256
+  DevFallocLeak = TRUE
+  DevWriteLeak = FALSE
+  DevRangeNotDirty = FALSE
 INVARIANT TraceTypeOK
 INVARIANT NoDataPastEOF
 INVARIANT ReadExact
+CONSTRAINT Record
 POSTCONDITION TraceAccepted
 CHECK_DEADLOCK FALSE
